@@ -9,9 +9,9 @@ package main
 
 import (
 	"fmt"
+	"math/rand"
 	"os"
 	"runtime"
-	"math/rand"
 	"sort"
 	"strings"
 	"sync"
@@ -116,8 +116,6 @@ type hworld struct {
 	nmark   int
 	failed  string
 }
-
-
 
 func mkWorld(in input) *hworld {
 	s := suiteOf(in.Suite)
@@ -247,7 +245,7 @@ func (w *hworld) opLit(o hop, nilFirst bool) string {
 		}
 		return fmt.Sprintf("(PResponseTree %s %s)", tm, ro)
 	case "ptm":
-		return "(PTreeMarshal " + w.d.tm(w.descs[o.Desc]) + ")"
+		return "(PTreeMarshal " + w.d.tm(w.descs[o.Desc]) + " 0)"
 	case "preqros":
 		return fmt.Sprintf("(PRequestRoster %d %s)", w.d.id(w.rosters[o.Ros].ID), lib.Bool(nilFirst))
 	case "pros":
